@@ -465,3 +465,35 @@ def v_wavelen(c, deep):
         c.assume(h > 0.1)
         r = c.call(f, h)
         c.ensure_eq("two_pi_over_k", r, 2 * c.m.pi / s_wavenuma(c.m, f, h))
+
+
+@contract(WAVENUMA, props=["C01"], name="dispersion_sweep", scenarios=[{}], replays=1)
+def v_wavenuma_dispersion(c):
+    """BOUNDED (numeric sweep, never counted as proved): the returned wavenumber, and the celerity and
+    wavelength derived from it, are within 0.1 percent of the solution of the linear dispersion relation
+    omega^2 = g k tanh(k h), on 20001 relative depths k0 h in [1e-4, 316] x 3 water depths"""
+    if c.m.symbolic:
+        c.ensure_true("placeholder_structural", True)
+        return
+    import numpy as np
+    from wavespectra.core.utils import celerity, wavelen
+
+    g = 9.81
+    worst = (0.0, None)
+    for h in (0.5, 25.0, 4000.0):
+        k0h = np.logspace(-4, 2.5, 20001)
+        w2 = k0h * g / h
+        f = np.sqrt(w2) / (2 * np.pi)
+        k = np.asarray(c.call(f, h), dtype=float)
+        ke = np.maximum(w2 / g, np.sqrt(w2 / (g * h)))  # Newton from above the root
+        for _ in range(60):
+            th = np.tanh(ke * h)
+            ke = ke - (g * ke * th - w2) / (g * th + g * ke * h * (1 - th * th))
+        err = np.abs(k / ke - 1)
+        if err.max() > worst[0]:
+            worst = (float(err.max()), (float(f[err.argmax()]), h))
+        cel = np.asarray(celerity(f, h), dtype=float)
+        wl = np.asarray(wavelen(f, h), dtype=float)
+        c.ensure_true("celerity_within_0.1_percent", bool(np.all(np.abs(cel / (np.sqrt(w2) / ke) - 1) <= 1e-3)), f"depth {h}")
+        c.ensure_true("wavelength_within_0.1_percent", bool(np.all(np.abs(wl / (2 * np.pi / ke) - 1) <= 1e-3)), f"depth {h}")
+    c.ensure_true("wavenumber_within_0.1_percent_of_linear_dispersion", worst[0] <= 1e-3, f"relative error {worst[0]} at (f, depth) = {worst[1]}")
